@@ -385,6 +385,41 @@ func init() {
 				}
 			}
 		}
+		// ascending steps (each below half the ring) that wind around the ring once or twice and end exactly where a
+		// run of consecutive numbers of the same length would end, or one beside it
+		for _, ln := range []int{4, 5, 8, 17, 18, 33} {
+			for rep := 0; rep < 6; rep++ {
+				for _, endoff := range []int{ln - 1, ln, ln - 2} {
+					winds := 1 + rep%2
+					total := 65536*winds + endoff
+					seqs := []uint16{uint16(g.U16())}
+					left := total
+					for j := 1; j < ln; j++ {
+						rem := ln - j // steps still to take, including this one
+						lo := left - 32767*(rem-1)
+						if lo < 1 {
+							lo = 1
+						}
+						hi := left - (rem - 1)
+						if hi > 32767 {
+							hi = 32767
+						}
+						if lo > hi {
+							break
+						}
+						st := lo + g.R.Intn(hi-lo+1)
+						if rem == 1 {
+							st = left
+						}
+						left -= st
+						seqs = append(seqs, seqs[len(seqs)-1]+uint16(st))
+					}
+					if len(seqs) == ln {
+						scriptNack(s, seqs)
+					}
+				}
+			}
+		}
 		// lists longer than the ring of sequence numbers: the whole ring from some start plus a few repeats
 		for _, start := range []int{1000} {
 			seqs := make([]uint16, 0, 65540)
